@@ -7,7 +7,7 @@ the rows the real program value held when the call started (gen/indexed_tie.py):
 import json
 import os
 
-from .. import c07_gen, dl, engine_tie, gen_dl, indexed_tie, lib, plan_model
+from .. import c07_gen, dl, engine_tie, gen_dl, indexed_tie, lib, plan_model, scc_shapes
 
 PROP = "C01"
 PROP_FILE = "Props/C01.v"
@@ -34,7 +34,38 @@ def gen_cases(tier, seed):
                 inputs += extra
                 styles += ["join_repeat"] * len(extra)
         cases.append(dict(id="c01_%d" % i, prog=p, inputs=inputs, styles=styles))
+    return cases + gen_scc_cases(tier, seed)
+
+
+SCC_OPTS_MULTI = dict(p_rec=0.6, p_rec_union=0.7, rec_kinds=["lin", "nonlin", "symtrans", "symtrans", "mutual", "mutual"])
+
+
+def gen_scc_cases(tier, seed):
+    """deep / irregular stratum DAGs (gen/scc_shapes.py): 4-13 strata, diamonds with arms of different length, skip edges, fan-in of
+    chains of different length, recursive strata in the middle, several rule-level edges between one pair of strata, rules in
+    shuffled / consumers-first / interleaved textual order; inputs on which (nearly) every stratum edge is sensitive: the
+    consumer evaluated before that producer would miss tuples.  The ORDER in which the macro evaluates the strata is what is
+    exercised.  Own random stream: the cases above do not change."""
+    rng = lib.rng_for(seed, PROP, "scc_shapes")
+    n = 22 if tier == "quick" else 160
+    cases = []
+    for i in range(n):
+        c = scc_shapes.gen_case(rng, None if i % 2 == 0 else SCC_OPTS_MULTI, ninputs=2)
+        if c:
+            p, inputs, _ = c
+            cases.append(dict(id="c01_scc_%d" % i, prog=p, inputs=inputs, styles=["scc"] * len(inputs)))
     return cases
+
+
+def decode_case(c, cid):
+    """a case as stored in json (corpus line / replay file: tuples became lists) -> a case of engine_tie.run"""
+    c = dict(c, id=cid)
+    p = dict(c["prog"])
+    p["rels"] = [(r[0], r[1], tuple(r[2]) if isinstance(r[2], list) else r[2]) for r in p["rels"]]
+    p["rules"] = [dict(heads=[(h[0], [tuple_t(t) for t in h[1]]) for h in r["heads"]], body=[tuple_item(it) for it in r["body"]]) for r in p["rules"]]
+    c["prog"] = p
+    c["inputs"] = [{r: [tuple(t) for t in ts] for r, ts in inp.items()} for inp in c["inputs"]]
+    return c
 
 
 def load_corpus():
@@ -44,12 +75,7 @@ def load_corpus():
     out = []
     for k, l in enumerate(open(path)):
         if l.strip():
-            c = json.loads(l)
-            c["id"] = "corpus_%d" % k
-            c["prog"]["rels"] = [tuple(r) for r in c["prog"]["rels"]]
-            c["prog"]["rules"] = [dict(heads=[(h[0], [tuple_t(t) for t in h[1]]) for h in r["heads"]], body=[tuple_item(it) for it in r["body"]]) for r in c["prog"]["rules"]]
-            c["inputs"] = [{r: [tuple(t) for t in ts] for r, ts in inp.items()} for inp in c["inputs"]]
-            out.append(c)
+            out.append(decode_case(json.loads(l), "corpus_%d" % k))
     return out
 
 
@@ -121,8 +147,20 @@ def tie(tier, seed, replay):
         mism += idx["mismatches"]
     nskipped = sum(1 for r in results if r.get("skipped"))
     results = [r for r in results if not r.get("skipped")]
+    scc_cov = dict(programs=0, strata=0, max_strata=0, depth=0, stratum_edges=0, sensitive_edges=0, uneven_fanin=0, double_edge_fanin=0, looping=0, text_order={})
     for r in results:
-        mism += engine_tie.compare_case(r)
+        ms = engine_tie.compare_case(r)
+        for m in ms:
+            m["case"]["prog_ast"] = dict(rels=r["case"]["prog"]["rels"], rules=r["case"]["prog"]["rules"])      # --replay re-runs exactly this program
+        mism += ms
+        st = r["case"]["prog"].get("scc", {}).get("stats")
+        if st:
+            scc_cov["programs"] += 1
+            scc_cov["max_strata"] = max(scc_cov["max_strata"], st["strata"])
+            for a, b in (("strata", "strata"), ("depth", "depth"), ("stratum_edges", "edges"), ("sensitive_edges", "sensitive"), ("uneven_fanin", "uneven"), ("double_edge_fanin", "double_fanin"), ("looping", "looping")):
+                scc_cov[a] += st[b]
+            sty = r["case"]["prog"]["scc"].get("style")
+            scc_cov["text_order"][sty] = scc_cov["text_order"].get(sty, 0) + 1
         for f in gen_dl.program_features(r["case"]["prog"]):
             feats[f] = feats.get(f, 0) + 1
         sh = r["case"]["prog"].get("shape", "corpus")
@@ -139,7 +177,7 @@ def tie(tier, seed, replay):
                    impl={k: v[1][:6] for k, v in __import__("gen.prog", fromlist=["x"]).canon_snap(r["impl"][0]["snaps"][-1]).items()} if r["impl"] and "snaps" in r["impl"][0] else r["impl"])
               for r in results[:3]]
     return dict(evaluations=sum(len(r["case"]["inputs"]) for r in results) + (idx["evaluations"] if idx else 0), distinct_nontrivial=len(distinct) + (idx["coverage"]["least_model_checks_where_the_call_had_to_derive"] if idx else 0),
-                rule="random core programs (1-6 rules, 1-4 body items, relations of arity 1-3; shapes free/linear/non-linear/mutual/chain) x 3-4 input databases (empty, singleton, unequal, dense, chains), then a second phase of nearly saturated inputs (the least model of a first-phase input with one head relation reset to its original rows); non-trivial = the plan has a looping SCC and the run derives at least one new fact; distinct = distinct (plan summary, input).  PLUS histories of one program value (any rows, any index fields): " + (idx["rule"] if idx else "-") + "; counted as non-trivial there: calls of run() / run_timeout() == true that had to derive at least one tuple and were compared with the least model of the rows present",
+                rule="random core programs (1-6 rules, 1-4 body items, relations of arity 1-3; shapes free/linear/non-linear/mutual/chain) x 3-4 input databases (empty, singleton, unequal, dense, chains); programs with deep / irregular stratum DAGs (gen/scc_shapes.py: 4-13 strata, diamonds with arms of different length, skip edges, fan-in of chains of different length, recursive strata in the middle, several rule-level edges between one pair of strata, rules in shuffled / consumers-first / interleaved textual order) x 2 inputs on which the stratum edges are sensitive (the consumer evaluated before that producer misses tuples); then a second phase of nearly saturated inputs (the least model of a first-phase input with one head relation reset to its original rows); non-trivial = the plan has a looping SCC and the run derives at least one new fact; distinct = distinct (plan summary, input).  PLUS histories of one program value (any rows, any index fields): " + (idx["rule"] if idx else "-") + "; counted as non-trivial there: calls of run() / run_timeout() == true that had to derive at least one tuple and were compared with the least model of the rows present",
                 samples=sample, distribution=dict(programs=len(results), shapes=shapes, features=feats, recursive_deriving_runs=nrec),
                 mismatches=mism,
                 trusted_base=["FRONT hook (ascent_macro/src/verif_hook.rs, feature verif_hooks) printing the MIR plan; gen/dl.py translating the dump into the Coq plan term; gen/prog.py generated crates + canonicaliser",
@@ -148,13 +186,16 @@ def tie(tier, seed, replay):
                               "virtual clock hook (ascent/src/verif_hooks.rs, feature verif_hooks) standing in for web_time::Instant: decides which deadline check of run_timeout fires",
                               "rustc, hashbrown / std collections meet their documented semantics"],
                 assumptions=["column values are small i32 (no overflow in the vocabulary functions)", "hash-map iteration order is not modelled: relation contents are compared as sets plus row counts"],
-                extra=dict(cases_skipped_model_too_slow=nskipped, programs=len(results), plans_validated=sum(1 for r in results if r["valid"] is True),
+                extra=dict(cases_skipped_model_too_slow=nskipped, programs=len(results), stratum_order_family=scc_cov, plans_validated=sum(1 for r in results if r["valid"] is True),
                            planner_model_vs_dumped_plan={k: v for k, v in plan_stats.items() if k in ("evaluations", "wf_core_holds", "sccs_ok_holds", "untranslatable", "not_compiled", "features")},
                            indexed_engine_vs_real_index_fields=(dict(idx["coverage"], histories=idx["evaluations"], rule=idx["rule"]) if idx else None)))
 
 
 def load_corpus_from(cases):
+    """the case of a replay file (a mismatch of engine_tie.compare_case, to which tie() added the program AST) -> engine cases"""
     out = []
     for k, c in enumerate(cases):
-        pass
+        if "prog_ast" in c:
+            inputs = [c["input"]] if "input" in c else c.get("inputs", [{}])
+            out.append(decode_case(dict(prog=c["prog_ast"], inputs=inputs), "replay_%d" % k))
     return out
